@@ -806,6 +806,25 @@ fn date(d: &[u8]) -> bool {
     let b = gix_date::parse(s, None).is_ok();
     a || b
 }
+/// `[-]<digits> <sign>HHMM`, ASCII only: the inputs for which `gix_date::parse` is its private
+/// `parse_raw` (no earlier format accepts them); everything else is `err` on both sides
+fn raw_shaped(d: &[u8]) -> bool {
+    let Some(k) = d.iter().position(|b| *b == b' ') else { return false };
+    let (secs, off) = (&d[..k], &d[k + 1..]);
+    let digits = secs.strip_prefix(b"-").unwrap_or(secs);
+    !digits.is_empty()
+        && digits.iter().all(u8::is_ascii_digit)
+        && off.len() == 5
+        && (off[0] == b'+' || off[0] == b'-')
+        && off[1..].iter().all(u8::is_ascii_digit)
+}
+fn date_raw(d: &[u8]) -> bool {
+    if !raw_shaped(d) {
+        return false;
+    }
+    let s = std::str::from_utf8(d).expect("ascii");
+    gix_date::parse(s, None).is_ok()
+}
 fn quote(d: &[u8]) -> bool {
     gix_quote::ansi_c::undo(d.as_bstr()).is_ok()
 }
@@ -881,6 +900,7 @@ pub fn all() -> Vec<Ep> {
         Ep { name: "revspec", tie: None, shape: Token, seeds: "revspec", call: revspec },
         Ep { name: "pathspec", tie: None, shape: Token, seeds: "pathspec", call: pathspec },
         Ep { name: "date", tie: None, shape: Token, seeds: "date", call: date },
+        Ep { name: "date-raw", tie: Strong, shape: Token, seeds: "date-raw", call: date_raw },
         Ep { name: "quote", tie: Strong, shape: Token, seeds: "quote", call: quote },
         Ep { name: "credentials", tie: Strong, shape: Text, seeds: "credentials", call: credentials },
     ]
